@@ -330,6 +330,29 @@ def _constructor_rejections():
             pass
         except Exception as e:     # noqa: BLE001
             fails.append({"what": f"{what} raised {type(e).__name__}", "expected": exc.__name__})
+    # a rejected SimpleTaskPool(<not a coroutine function>) leaves no trace: no pool is registered,
+    # so the next unnamed pool gets the very next index; and the function is judged before the size
+    import re
+    a = TaskPool()
+    for bad in (lambda: SimpleTaskPool(plain), lambda: SimpleTaskPool(plain, pool_size=2)):
+        try:
+            bad()
+        except Exception:     # noqa: BLE001
+            pass
+    b = TaskPool()
+    ia, ib = (int(re.search(r"-(\d+)$", str(x)).group(1)) for x in (a, b))
+    if ib != ia + 1:
+        fails.append({"what": "a rejected SimpleTaskPool(<plain function>) left a trace: the next unnamed "
+                              "pool's index was burnt", "before": str(a), "after": str(b)})
+    try:
+        SimpleTaskPool(plain, pool_size=-1)
+        fails.append({"what": "SimpleTaskPool(<plain function>, pool_size=-1) was accepted"})
+    except exceptions.NotCoroutineFunction:
+        pass
+    except Exception as e:     # noqa: BLE001
+        fails.append({"what": "SimpleTaskPool(<plain function>, pool_size=-1) raised "
+                              f"{type(e).__name__}; the function is checked first",
+                      "expected": "NotCoroutineFunction"})
     for what, make in (("TaskPool(pool_size=0)", lambda: TaskPool(pool_size=0)),
                        ("SimpleTaskPool(coroutine function)", lambda: SimpleTaskPool(co))):
         try:
